@@ -19,6 +19,12 @@ type State struct {
 	wm    string
 	pc    string
 	dead  bool
+	sym   *symHeaps // non-nil: heaps are bound variables (definition of a recursive spec function)
+}
+
+type symHeaps struct {
+	names []string
+	sorts []string
 }
 
 func (s *State) clone() *State {
@@ -91,7 +97,7 @@ type FuncVC struct {
 	loops     map[*ssa.BasicBlock]*loopInfo
 	backEdges map[edge]bool
 	edgeOut   map[edge]*edgeState
-	declPos   map[token.Pos]*ssa.Alloc
+	declPos   map[token.Pos][]*ssa.Alloc
 
 	unsupported []string
 	warnings    []string
@@ -102,6 +108,8 @@ type FuncVC struct {
 	curPos      token.Pos
 	curBlock    *ssa.BasicBlock
 	bounded     bool
+	boundActive []string
+	recSpecs    map[string]*recSpecInfo
 }
 
 type loopInfo struct {
@@ -191,6 +199,17 @@ func arraySort(nIdx int, leaf string) string {
 func (f *FuncVC) heap(st *State, name, sort string) string {
 	if t, ok := st.heaps[name]; ok {
 		return t
+	}
+	if st.sym != nil {
+		bn := f.sc.fresh("hp")
+		st.heaps[name] = bn
+		st.sym.names = append(st.sym.names, name)
+		st.sym.sorts = append(st.sym.sorts, sort)
+		f.boundActive = append(f.boundActive, bn)
+		if _, ok := f.heapSorts[name]; !ok {
+			f.heapSorts[name] = sort
+		}
+		return bn
 	}
 	if old, ok := f.heapSorts[name]; ok && old != sort {
 		f.unsup(fmt.Sprintf("heap %s used at sorts %s and %s", name, old, sort))
@@ -301,6 +320,7 @@ func (f *FuncVC) load(st *State, p *Val, ty types.Type) *Val {
 // asserts the type ranges of its integer leaves.
 func (f *FuncVC) nameAndRange(st *State, v *Val, base string) {
 	if f.pure > 0 {
+		f.pureFacts(st, v)
 		return
 	}
 	var walk func(v *Val)
@@ -361,7 +381,7 @@ func (f *FuncVC) nameAndRange(st *State, v *Val, base string) {
 func (f *FuncVC) assertSliceWF(st *State, v *Val) {
 	ref, off, ln, cp := v.Fs[0].T, v.Fs[1].T, v.Fs[2].T, v.Fs[3].T
 	f.sc.assert(and(cmp(">=", ref, "0"), cmp("<", ref, st.wm), cmp(">=", off, "0"), cmp(">=", ln, "0"), cmp("<=", ln, cp),
-		implies(eq(ref, "0"), eq(cp, "0"))))
+		implies(eq(ref, "0"), eq(cp, "0")), cmp("<=", arith("+", off, cp), maxElems)))
 	v.Fs[2].Lo = big.NewInt(0)
 }
 
@@ -880,4 +900,44 @@ func samePtrShape(a, b *PtrInfo) bool {
 		}
 	}
 	return true
+}
+
+// mentionsBound reports whether a term mentions an active quantified variable.
+func (f *FuncVC) mentionsBound(t string) bool {
+	for _, b := range f.boundActive {
+		if strings.Contains(t, b) {
+			return true
+		}
+	}
+	return false
+}
+
+// pureFacts asserts the type invariants (integer ranges, slice well-formedness)
+// of a value loaded while evaluating a contract expression.  They are facts
+// about every Go heap, so asserting them is sound; terms that mention a bound
+// variable are skipped.
+func (f *FuncVC) pureFacts(st *State, v *Val) {
+	switch v.K {
+	case KInt:
+		if b := basicOf(v.Ty); b != nil && !f.mentionsBound(v.T) {
+			if lo, hi, ok := intRange(b); ok {
+				f.sc.assert(and(cmp("<=", numBig(lo), v.T), cmp("<=", v.T, numBig(hi))))
+			}
+		}
+	case KSlice:
+		for _, c := range v.Fs {
+			if f.mentionsBound(c.T) {
+				return
+			}
+		}
+		f.assertSliceWF(st, v)
+	case KIface:
+		if !f.mentionsBound(v.Fs[0].T) && !f.mentionsBound(v.Fs[1].T) {
+			f.assertIfaceWF(st, v)
+		}
+	case KStruct, KTuple:
+		for _, c := range v.Fs {
+			f.pureFacts(st, c)
+		}
+	}
 }
